@@ -8,7 +8,7 @@ Import ListNotations.
 Definition sx_names (l : list str) : sx := SL (map SA l).
 Definition sx_obs (o : obs) : sx := SL [sx_names (ob_types o); sx_names (ob_aliases o); sx_bool (ob_parsed o)].
 
-(* (in_domain (kf flags: field_result odd_name inline_mod)
+(* (in_domain (kf flags: field_result odd_name inline_mod payload_expr)
     spec model? (obs ok corr)plain (obs ok corr)zod (agree_b)) *)
 Definition c07_eval (p : project) (plain zod : str) : sx :=
   let spec := reachable_spec p in
@@ -16,7 +16,8 @@ Definition c07_eval (p : project) (plain zod : str) : sx :=
   let op := observe_plain plain in
   let oz := observe_zod zod in
   SL [sx_bool (in_domain p);
-      SL [sx_bool (kf_c07_field_result p); sx_bool (kf_c07_odd_name p); sx_bool (kf_c07_inline_mod p)];
+      SL [sx_bool (kf_c07_field_result p); sx_bool (kf_c07_odd_name p); sx_bool (kf_c07_inline_mod p);
+          sx_bool (kf_c07_payload_expr p)];
       sx_names spec;
       sx_opt sx_names model;
       SL [sx_obs op; sx_bool (c07_ok spec op); sx_bool (c07_corr model op)];
